@@ -204,6 +204,17 @@ class State:
                 notify_vars[var_name] = getattr(notify_vars[f"{parts[0]}.{parts[1]}.old"], parts[3], None)
             elif 1 <= var_name.count(".") <= 3 and not cls.exist(var_name):
                 notify_vars[var_name] = None
+            elif len(parts) in (2, 3):
+                #
+                # never notified so far: take the value now rather than at evaluation time,
+                # when the variable could have changed or have been deleted
+                #
+                state = cls.hass.states.get(f"{parts[0]}.{parts[1]}")
+                if state is not None:
+                    if len(parts) == 2:
+                        notify_vars[var_name] = StateVal(state)
+                    elif parts[2] in state.attributes:
+                        notify_vars[var_name] = state.attributes[parts[2]]
         return notify_vars
 
     @classmethod
